@@ -100,6 +100,8 @@ def defcall(fa, op, depth=0):
             pl = op_place(d[3]["op"])
         elif d[2] == "assign" and d[3]["k"] == "cast":
             pl = op_place(d[3]["op"])
+        elif d[2] == "assign" and d[3]["k"] == "ref" and not [e for e in d[3]["place"]["p"] if e != "*"]:
+            pl = d[3]["place"]
         else:
             return None
     return None
@@ -213,11 +215,25 @@ def padval(ctx):
         okf = len(fills) == 2 and all(strip_casts(S.operand(t["args"][1])) in
                                       (("call", "std::default::Default::default", [], b),)
                                       or "default" in show(S.operand(t["args"][1])) for b, t in fills)
-        # the filled range is [..feat_template_size] (whole row 0)
-        okr = True
+        # the filled range is [..feat_template_size] (whole row 0), the width also used to chunk
+        # the remaining rows
+        widths = set()
+        for b, t in calls_named(fa, "chunks_mut"):
+            widths.add(root_local(fa, t["args"][1]))
+        okr = bool(fills)
         for b, t in fills:
-            o = fa.origin(t["args"][0])
-            okr = okr and "index_mut" in show(S.operand(t["args"][0])) or True
+            ic = defcall(fa, t["args"][0])
+            rng = None
+            if ic and "index_mut" in cname(ic[1]):
+                d = fa.single_def(op_place(ic[1]["args"][1])["l"]) if op_place(ic[1]["args"][1]) else None
+                if d and d[2] == "assign" and d[3]["k"] == "agg" and str(d[3].get("adt", "")).endswith("RangeTo"):
+                    rng = root_local(fa, d[3]["ops"][0])
+            okr = okr and rng is not None and rng in widths
+        ctx.ob("RESERVED0", "A|RawConnector::from_readers|row0-full-width", okr, fn_loc(crate, p),
+               "the whole first row ([..feat_template_size], the width the other rows are chunked "
+               "by) is filled with the empty feature" if okr else
+               "row 0 is filled over a range that is not the row width: with more than one vector "
+               "per row the BOS/EOS costs of the later template positions are lost")
         ctx.ob("RESERVED0", "A|RawConnector::from_readers|row0-empty-feature", okf, fn_loc(crate, p),
                "row 0 (BOS/EOS) of both feature tables is filled with feature id 0, the empty "
                "feature" if okf else "row 0 of the feature tables is not filled with the empty "
@@ -297,7 +313,43 @@ def reserved0(ctx):
            "features without cost lines map to %s" % vals)
 
 
+def scorer_build(ctx):
+    """check_base accepts a base only after every key of the row was probed."""
+    crate = ctx.facts("A").lib
+    E = Effects(crate)
+    p = SC + "ScorerBuilder::check_base"
+    fa = E.fa(p)
+    nexts = [(b, t) for b, t in fa.calls()
+             if any(strip_generics(x).endswith("::next") for x in callee_paths(t))]
+    ok = len(nexts) == 1
+    if ok:
+        hb = nexts[0][0]
+        sw = fa.term(hb).get("t")
+        st = fa.term(sw)
+        some_t = [tg for v, tg in zip(st["vals"], st["targets"]) if v == 1]
+        true_blocks = set()
+        for b, i, s2 in fa.stmts():
+            if "lhs" in s2 and s2["lhs"]["l"] == 0 and not s2["lhs"]["p"] and s2["rv"]["k"] == "use":
+                k = op_const(s2["rv"]["op"])
+                if k is not None and k.get("int") == 1:
+                    true_blocks.add(b)
+        body = fa.reachable(some_t[0], avoid={hb}) if some_t else set()
+        ok = bool(true_blocks) and not (true_blocks & body)
+    ctx.ob("SCORERBUILD", "A|check_base|accepts-only-after-all-keys", ok, fn_loc(crate, p),
+           "a base is accepted only when the loop over all second-level keys ran to the end "
+           "(every position base ^ key2 was seen free or beyond the table)" if ok else
+           "check_base can return true before all keys were probed: a later key may land on an "
+           "occupied slot and ScorerBuilder::build overwrites another pair's check/cost")
+    # build(): the base search loop calls check_base with the candidate base it then stores
+    p = SC + "ScorerBuilder::build"
+    fa = E.fa(p)
+    cb = calls_named(fa, "check_base")
+    ctx.ob("SCORERBUILD", "A|build|searches-free-base", len(cb) == 1, fn_loc(crate, p),
+           "build() searches a collision-free base with check_base before placing a row")
+
+
 def run(ctx):
+    scorer_build(ctx)
     portable(ctx)
     avx2(ctx)
     padval(ctx)
